@@ -38,7 +38,8 @@ def _scenarios(quick, seed, workdir):
     scns = []
     for k in range(8 if quick else 150):
         files = _mk_files(k, workdir, rnd)
-        tgt = dumps.base_target(1, file_maps=[{"path": f["path"], "off": f["off"], "len": 0x3000 if not f["archive"] else 0x3000, "exec": f["exec"], "delete": f["delete"]} for f in files])
+        tgt = dumps.base_target(1, file_maps=[{"path": f["path"], "off": f["off"], "len": 0x3000 if not f["archive"] else 0x3000, "exec": f["exec"], "delete": f["delete"],
+                                                     "split": (k + j) % 2 == 0} for j, f in enumerate(files)])
         w = {"blamed": "main"}
         mode = k % 4
         if mode == 1:      # a caller mapping that describes the first mapped file: exactly its merged extent, or (every other time) its first three pages
